@@ -11,6 +11,7 @@ compare the importer file (bytes and logical dump) before and after.
 from __future__ import annotations
 
 import hashlib
+import json
 import os
 import shutil
 import sqlite3
@@ -28,7 +29,7 @@ RULE = ("case = (producer network, importer edit in {exact, superset(1..50 unrel
 ASSUME = ["importer databases carry the full library schema (they are produced by the library)", "ray stand-in replaces the executor"]
 SHARDS = {"quick": 8, "thorough": 16}
 BUDGET_S = {"quick": 100, "thorough": 1300}
-DECIDING = ["imported_state", "gap_stops_run", "importer_unmodified", "imported_obs_reach_filter"]
+DECIDING = ["imported_state", "gap_stops_run", "importer_unmodified", "imported_obs_reach_filter", "obs_metadata"]
 MANIFEST = {
     "technique": "runtime monitoring over data-fault sequences: importer DBs produced by the library then edited; per-step state comparison against importer rows, exception monitor on gaps, observation-routing log, file hash/dump comparison",
     "level_text": "held on every executed (importer edit, imported-agent mix, step count): imported states equal the importer rows bit for bit, gaps stop the run with MissingEphemerisError at the step of the gap, imported observations reach their target's filter, importer file unchanged",
@@ -108,6 +109,12 @@ def gen_case(rng):
     net["init_pos_std"] = 1e-3
     net["save_filter_steps"] = False
     net["maneuver_detection"] = None
+    # sensors of the same type with different stated noise: imported observations must carry their own sensor's metadata
+    if len(net["sensors"]) > 1 and rng.random() < 0.6:
+        for s in net["sensors"][1:]:
+            s["kind"] = net["sensors"][0]["kind"]
+    for s in net["sensors"]:
+        s["cov_scale"] = rng.choice([1.0, 4.0, 0.25, 9.0])
     steps = rng.randrange(2, 9)
     edit_kind = rng.choice(["exact", "superset", "superset", "gap", "gap", "gap_superset", "gap_superset", "missing_epoch", "missing_epoch_superset"])
     imported = rng.choice(["targets", "targets", "sensors", "both"])
@@ -124,7 +131,14 @@ def gen_case(rng):
         gap = [rng.choice(cand), rng.randrange(1, steps + 1)]
     elif edit_kind.startswith("missing_epoch"):
         gap = ["epoch", rng.randrange(1, steps + 1)]
-    return {"kind": "c19", "net": net, "steps": steps, "edit": edit_kind, "imported": imported, "extra_agents": extra, "gap": gap,
+    late = None
+    if imported in ("targets", "both") and len(net["targets"]) >= 2 and rng.random() < 0.4:
+        # the last target joins the running scenario (Scenario.addTarget) after step j; it is imported like the others
+        j = rng.randrange(0, steps)
+        if gap is not None and gap[0] == net["targets"][-1]["id"] and gap[1] <= j:
+            j = gap[1] - 1
+        late = [net["targets"][-1]["id"], j]
+    return {"kind": "c19", "late": late, "net": net, "steps": steps, "edit": edit_kind, "imported": imported, "extra_agents": extra, "gap": gap,
             "imported_obs": (imp_obs := rng.random() < 0.6), "dup_obs": imp_obs and rng.random() < 0.35, "edit_seed": rng.randrange(1 << 30)}
 
 
@@ -157,6 +171,12 @@ def eval_case(ctx, case):
         imp_obs.setdefault((r[0], r[2]), []).append((r[1], r[3], r[4], r[5], r[6]))
 
     cfg = netkit.net_cfg(net)
+    late = case.get("late")
+    late_cfg = None
+    if late:
+        tl = cfg["engines"][0]["targets"]
+        late_cfg = next(t for t in tl if t["id"] == late[0])
+        cfg["engines"][0]["targets"] = [t for t in tl if t["id"] != late[0]]
     start = datetime.fromisoformat(net["start"])
     cfg["time"]["stop_timestamp"] = sk.iso(start + timedelta(seconds=(steps + 1) * net["step"]))
     cfg["propagation"]["target_realtime_propagation"] = case["imported"] not in ("targets", "both")
@@ -165,7 +185,7 @@ def eval_case(ctx, case):
         cfg["observation"]["realtime_observation"] = False
     imported_ids = []
     if case["imported"] in ("targets", "both"):
-        imported_ids += [t["id"] for t in net["targets"]]
+        imported_ids += [t["id"] for t in net["targets"] if not (late and t["id"] == late[0])]
     if case["imported"] in ("sensors", "both"):
         imported_ids += [s["id"] for s in net["sensors"]]
 
@@ -173,11 +193,14 @@ def eval_case(ctx, case):
     from resonaate.parallel import estimate_update as eu
 
     reached = []
+    meta = []
     orig_init = eu.EstUpdateRegistration.__init__
 
     def reg_init(self, registrant, handle, observations):
         reached.append((registrant.simulation_id, registrant.datetime_epoch.isoformat(timespec="microseconds"),
                         [(int(o.sensor_id), float(o.azimuth_rad), float(o.elevation_rad), o.range_km, o.range_rate_km_p_sec) for o in observations]))
+        for o in observations:
+            meta.append((int(o.sensor_id), None if o.measurement is None else np.array(o.measurement.r_matrix, dtype=float)))
         orig_init(self, registrant, handle, observations)
 
     eu.EstUpdateRegistration.__init__ = reg_init
@@ -187,6 +210,21 @@ def eval_case(ctx, case):
     try:
         b = sk.build(cfg, base_seed=net["seed"] + 1, importer_db_path=ipath)
         app = b.app
+        def add_late():
+            from resonaate.data.agent import AgentModel
+
+            ts0 = (start + timedelta(seconds=late[1] * net["step"])).isoformat(timespec="microseconds")
+            row0 = imp.get((ts0, late[0]))
+            spec = json.loads(json.dumps(late_cfg))
+            if row0 is not None:
+                spec["state"] = {"type": "eci", "position": [float(v) for v in row0[:3]], "velocity": [float(v) for v in row0[3:]]}
+            app.database.insertData(AgentModel(unique_id=late[0], name=f"T{late[0]}"))
+            app.addTarget(spec, 1)
+            imported_ids.append(late[0])
+            ctx.count("late_imported_targets_added")
+
+        if late and late[1] == 0:
+            add_late()
         for k in range(1, steps + 1):
             try:
                 app.stepForward()
@@ -216,6 +254,8 @@ def eval_case(ctx, case):
                 same = all(_bits(a) == _bits(bv) for a, bv in zip(row, ag.eci_state))
                 ctx.check(same, "imported-state-differs", f"step {k}: state of imported agent {aid} differs from the importer record at {ts}", wit, mon="imported_state")
             _ = gap_now
+            if late and late[1] == k and k < steps:
+                add_late()
     except Exception as e:  # noqa: BLE001
         import traceback
 
@@ -244,11 +284,20 @@ def eval_case(ctx, case):
         for k in range(1, steps_ok + 1):
             ts = (start + timedelta(seconds=k * net["step"])).isoformat(timespec="microseconds")
             for t in net["targets"]:
+                if late and t["id"] == late[0] and k <= late[1]:
+                    continue  # not in the scenario yet
                 want = sorted((s, _bits(az), _bits(el)) for (s, az, el, _r, _rr) in imp_obs.get((ts, t["id"]), []))
                 got = [r for r in reached if r[0] == t["id"] and r[1] == ts]
                 have = sorted((s, _bits(az), _bits(el)) for g in got for (s, az, el, _r, _rr) in g[2])
                 if want:
                     ctx.check(all(w in have for w in want), "imported-observation-lost", f"step {k}: {len(want)} imported observation(s) of target {t['id']} at {ts}, {len(have)} reached its filter update", wit, mon="imported_obs_reach_filter")
+    # ---- every observation handed to a filter carries the stated noise of the sensor that made it --------
+    want_r = {sc["id"]: np.array(sc["sensor"]["covariance"], dtype=float) for sc in cfg["engines"][0]["sensors"]}
+    for sid, r in meta:
+        ok = r is not None and sid in want_r and r.shape == want_r[sid].shape and np.allclose(r, want_r[sid], rtol=1e-12, atol=0.0)
+        ctx.check(ok, "observation-metadata-of-another-sensor" if r is not None else "observation-without-metadata",
+                  f"an observation of sensor {sid} reached a filter update with noise covariance diag {None if r is None else np.diag(r).tolist()}, its sensor states {np.diag(want_r.get(sid, np.zeros((1, 1)))).tolist()}",
+                  wit, mon="obs_metadata")
     # ---- importer untouched ---------------------------------------------------------------------
     after = file_state(ipath)
     ctx.check(after[1] == before[1], "importer-content-modified", "logical content of the importer database changed during the run", wit, mon="importer_unmodified")
